@@ -1,3 +1,4 @@
+mod inventory;
 mod readback;
 mod translate;
 mod translate2;
@@ -24,6 +25,11 @@ fn main() {
     }
     "parse-response" => readback::cmd_parse_response(&args[2..]),
     "dump" => readback::cmd_dump(&args[2..]),
+    "inventory" => {
+      let repo = PathBuf::from(args.get(2).expect("repo"));
+      println!("{}", serde_json::to_string_pretty(&inventory::run(&repo)).unwrap());
+      0
+    }
     "server" => readback::cmd_server(&args[2..]),
     _ => {
       eprintln!("usage: vtool translate <repo> <outdir> | parse-response <files..> | dump <files..>");
